@@ -220,6 +220,16 @@ func runC16(r *rt.Runner) {
 				case 7:
 					checkTU(c, "uni"+up+"_u"+up, false)
 				}
+				// a component that fails part-way (a surrogate group or a bad digit
+				// behind good groups) contributes nothing - and leaves nothing behind
+				// for the components that follow it in the same name
+				if lo%16 == 9 {
+					checkTU(c, fmt.Sprintf("uni%sD800_uni0042", up), false)
+					checkTU(c, fmt.Sprintf("uni%s004G_uni%s", up, up), false)
+					checkTU(c, fmt.Sprintf("uni%sDFFF_A_uni%s_u%s", up, up, up), false)
+					checkTU(c, fmt.Sprintf("u%sG_uni0041%s", up, up), false)
+					checkTU(c, fmt.Sprintf("uni%s%s00_uni0042_uni%sD9AB_uni0043", up, up, up), true)
+				}
 			}
 		})
 	}
